@@ -107,6 +107,8 @@ def trait_kind(case, op):
 def key_fn(case, obs, step, clause):
     if clause == 20:
         return "declared-class-tables"
+    if clause in (6, 7, 10):
+        return CLAUSE[clause]     # a changed sibling / class table is reported by every later step too
     op = case["ops"][step]
     return "%s/%s/%s" % (CLAUSE.get(clause, clause), op[0], trait_kind(case, op))
 
@@ -267,7 +269,7 @@ def run(ctx):
                        "double reads on the last instance; a case is non-trivial if >= 2 instances exist and some step "
                        "returns a container object; distinct = distinct (configuration, history)")
     rnd = random.Random(ctx.seed)
-    n, maxlen = (700, 12) if ctx.tier == "quick" else (8000, 30)
+    n, maxlen = (400, 12) if ctx.tier == "quick" else (6000, 30)
     if ctx.replay:
         cases = [json.load(open(ctx.replay))["replay"]["case"]]
     else:
@@ -280,6 +282,14 @@ def run(ctx):
         k["shard"] = 40
         return _evaluate(*a, **k)
     hist.evaluate = sharded
+    _shrink, budget = hist.shrink, [3]
+
+    def bounded_shrink(ctx_, driver, case, to_term_, header, case_type, which, step, clause, rounds=3):
+        if budget[0] <= 0:            # many distinct failures: report the rest unshrunk
+            return case, None, step
+        budget[0] -= 1
+        return _shrink(ctx_, driver, case, to_term_, header, case_type, which, step, clause, 2)
+    hist.shrink = bounded_shrink
     hist.run(ctx, "c10_driver.py", cases, to_term, HEADER, CASE_T, key_fn, describe, nontrivial,
              relation="C10.Corr.corr_codes (Model.step = HasTraits instances on every step)")
     proof_gate(ctx, ok, log, PROPS)
